@@ -667,6 +667,24 @@ package tree
 //@   loop 0 invariant no_child_remains_so_far: $map == callres(filterActiveChoiceCaseChilds) && allstr(k, $visited[k] ==> !rem($map[k])) && !childsRemain
 
 // ---------------------------------------------------------------------------
+// C08: the best (lowest) priority value of a branch is taken over everything below the node, the members of cases
+// that lost a choice included: they are what the next case resolution is decided with
+//@ spec branchBest(Entry) int
+//@ iface Entry.getHighestPrecedenceValueOfBranch
+//@   noeffect
+//@   ensures result == branchBest(self)
+//@ func (*sharedEntryAttributes).getHighestPrecedenceValueOfBranch
+//@   props C08
+//@   requires s != nil && s.childs != nil && s.leafVariants != nil && lvOK(s.leafVariants)
+//@   requires allstr(k, present(s.childs.c, k) ==> s.childs.c[k] != nil)
+//@   modifies nothing
+//@   ensures no_worse_than_any_child [C08]: allstr(k, present(s.childs.c, k) ==> result <= branchBest(s.childs.c[k]))
+//@   ensures no_worse_than_the_own_values [C08]: result <= callres(GetHighestPrecedenceValue, 0) && callarg(GetHighestPrecedenceValue, 0, 0) == s.leafVariants
+//@   ensures attained [C08]: result == 2147483647 || result == callres(GetHighestPrecedenceValue, 0) || exstr(k, present(s.childs.c, k) && result == branchBest(s.childs.c[k]))
+//@   loop 0 invariant $map == callres(GetAll) && callarg(GetAll, 0, 0) == s.childs
+//@   loop 0 invariant allstr(k, $visited[k] ==> present($map, k) && result <= branchBest($map[k]))
+//@   loop 0 invariant result == 2147483647 || exstr(k, $visited[k] && result == branchBest($map[k]))
+
 // C08: what the choice resolver is told about a case member is the best (lowest) priority value of the member's
 // branch over both sources, the intents in the intended store (index, actual owner excluded) and the tree; a stored
 // contribution is never ignored because the branch also has a (weaker) value in the tree
